@@ -9,12 +9,12 @@ package main
 //     Coq model (Response.v) can be evaluated on the same input.
 
 import (
-	"sync"
-	"strconv"
 	"fmt"
 	"math/rand"
 	"sort"
+	"strconv"
 	"strings"
+	"sync"
 	"time"
 
 	"github.com/beevik/etree"
@@ -796,6 +796,15 @@ func (g *xgen) applyEdit(doc *etree.Document, rs *ResponseSpec, w *World, kind i
 			a.Relocated = true
 		}
 		return "nest-response-in-clean-response"
+	case 23: // white space between the children of a signed element: not a field of any decoded struct, but part of what was signed
+		target := root
+		if len(as) > 0 {
+			target = as[0]
+		}
+		if kids := target.ChildElements(); len(kids) >= 2 {
+			target.InsertChildAt(kids[1].Index(), etree.NewText("\n    "))
+			return "whitespace-injected-into-signed-content"
+		}
 	case 22: // nothing left to assert: every Assertion / EncryptedAssertion child removed (whatever signature the root has)
 		n := 0
 		for _, ch := range root.ChildElements() {
@@ -863,7 +872,7 @@ func firstAssertionIndex(root *etree.Element) int {
 	return len(root.Child)
 }
 
-const nEdits = 23
+const nEdits = 24
 
 // ---------- the response stream ----------
 
@@ -1615,6 +1624,9 @@ func runOneResponse(c *Ctx, cs *CaseSet, rc *respCase, respSigOK bool, profileFa
 				}
 			}
 			for _, l := range rc.labels {
+				if l == "whitespace-injected-into-signed-content" {
+					c.Violate("spec", "response:altered-signed-content-accepted", "character data was inserted between the children of a signed element after signing (no signature in the message covers the presented bytes any more) and the message was accepted", replay)
+				}
 				if l == "bad-own-signature-below-extensions" {
 					c.Violate("spec", "response:bad-signature-accepted", "the Response carries its own signature (a ds:Signature below samlp:Extensions whose Reference names the Response ID) made with a key that cannot vouch; it was accepted: a present-but-bad signature was downgraded to 'unsigned'", replay)
 				}
@@ -1731,9 +1743,10 @@ func hasEnvelopedSignature(raw []byte) bool {
 
 // editRootID: the attacker edits applied to a root that carries its own signature so that goxmldsig no longer finds a
 // signature REFERENCING the root (it answers ErrMissingSignature although the ds:Signature child is still there).
-//   "edit-response-id"            the value of the root's ID attribute is changed
-//   "prefixed-id-namesake-first"  xmlns:p="urn:p" p:ID="_other" inserted as the FIRST attributes: etree's SelectAttr("ID")
-//                                 matches on the local name and returns p:ID, the genuine ID attribute is untouched
+//
+//	"edit-response-id"            the value of the root's ID attribute is changed
+//	"prefixed-id-namesake-first"  xmlns:p="urn:p" p:ID="_other" inserted as the FIRST attributes: etree's SelectAttr("ID")
+//	                              matches on the local name and returns p:ID, the genuine ID attribute is untouched
 func editRootID(root *etree.Element, kind string) {
 	switch kind {
 	case "edit-response-id", "edit-id":
